@@ -39,6 +39,20 @@ TEXT = {
           "(the property speaks of process death).",
   "technique": "Lean 4 proof about the write plan + journal-derived crash images (fault enumeration at every write boundary)",
  },
+ "C10": {
+  "text": "Per contract a Lean state machine that follows the Go ReceiveBlock code; kernel-checked: the sum of recorded "
+          "entries stays covered by the balance through every receive (applied or refunded) and every history, the per-"
+          "beneficiary fused total equals the sum of its fusion entries, each withdrawal pays only the recorded owner, only "
+          "after the lock matured, exactly the recorded amount, and the same withdrawal cannot pay twice. Tied to the tree by "
+          "the contract stream (real node, every receive predicted, storage compared after each momentum) and model-free "
+          "monitors on the real storage and blocks.",
+  "design_ref": "§3 C10",
+  "note": "Reward bookkeeping, liquidity reward pools, bridge wrap/fees/administration are outside the models (observed "
+          "outcomes only); lock periods are parameters (theorems hold for all values, production values regenerated from "
+          "the tree); liquidity backing is false of the code once the spork address burns/funds from a balance that "
+          "contains ZNN/QSR stakes (known finding F14, negative witness theorem + stream scenario).",
+  "technique": "Lean 4 proof (invariant by induction over receives) + differential replay on a real node + liability monitor",
+ },
  "C01": {
   "text": "Kernel-checked invariants of the abstract ledger state machine (balances, confirmed sends, receive markers, "
           "token contract issue/mint/burn/update), by induction over accepted blocks and lifted to all reachable states: "
